@@ -7,7 +7,7 @@ ID = 'C07'
 HARNESS_BIN = 'c07'
 RUN_MODULE = 'Run.C07'
 COQ_EXTRA = ['Gen.C07Consts_ok']
-THEOREMS_PLANNED = ['C07_accounting', 'C07_disk_agrees', 'C07_lru_order', 'C07_get_is_use',
+THEOREMS = ['C07_accounting', 'C07_disk_agrees', 'C07_lru_order', 'C07_get_is_use',
             'C07_too_large_refused', 'C07_never_wedges', 'C07_recency_survives_restart']
 ASSUMPTIONS = [
     'no external interference with the cache directory for the disk-agreement and restart theorems (the property\'s "externally deleted files" are covered by the accounting / no-panic theorems and by the differential leg)',
